@@ -365,6 +365,12 @@ func init() {
 	reg("time.Now", func(fr *frame, args []value) value {
 		// symbolic wall clock, non-decreasing; monotonic part omitted (wall=0 encodes "no monotonic")
 		ps := fr.i.ps
+		if ps.clockConcrete > 0 {
+			// harness opted into a concrete clock (time is not its subject): strictly increasing instants
+			ps.clockNow += ps.clockConcrete
+			ps.lastClock = term.BVConstU(ps.clockNow, 64)
+			return timeValue(fr, int64(ps.clockNow))
+		}
 		t := ps.fresh("clock", term.BV(64))
 		// constrain to a sane positive range and monotone
 		fr.assume(term.BVCmp("bvult", t, term.BVConstU(1<<60, 64)))
